@@ -24,13 +24,15 @@ Proved here, over the abstract instantiation:
 
 * `poly_extract`, `Epoly_eq_zero_iff` — first step of the extractor: three accepting transcripts with the
                           same `A, S, y, z, T₁, T₂` and distinct `x` open `δ•G + Σ z^{2+j}•V_j`, `T₁`, `T₂`.
-* `ipp_round_special_sound` — second step: one folding round of the inner-product argument is specially
-                          sound (four challenges with distinct squares, independent generators).
+* `ipp_round_special_sound`, `ipp_special_sound` — second step: the inner-product argument is specially
+                          sound — one folding round, and by induction any number of rounds over a tree of
+                          accepting transcripts (four challenges with distinct squares per level, independent generators).
 * `challenges_some`, `verificationScalars_some`, `challengeTrace_spec` — the challenge list compared by the
                           correspondence is the verifier's own.
 
-Not proved (stated in DESIGN.md): the rest of the knowledge-soundness argument of Bulletproofs (chaining the
-rounds over a tree of transcripts, and from the aggregate opening to the individual `V_j` and their bits).
+Not proved (stated in DESIGN.md): the remaining glue of the knowledge-soundness argument of Bulletproofs
+(from the openings of `A, S, T₁, T₂`, the aggregate and the inner-product witness for many `y, z` to the
+individual `V_j` and their bits; and the forking lemma that produces the transcript trees).
 Completeness of the aggregated prover for every admissible split is `Zk.Props.C05.Range.complete`
 (built on `Zk.Range.prove_complete` in `Proofs/RangeProve.lean`).
 -/
@@ -300,6 +302,15 @@ theorem ipp_round_special_sound {ι : Type} [Fintype ι] [DecidableEq F] (gL gR 
   obtain ⟨a1, a2, b1, b2, h⟩ := IppExtract.ipp_round_extract gL gR hL hR Q hind P L R u hu0 hsq a' b'
     (fun i => by rw [hacc i, IppExtract.lin_folded])
   exact ⟨a1, a2, b1, b2, h⟩
+
+/-- **the inner-product argument is (4, …, 4)-special sound, for any number of rounds**: a tree of accepting
+    transcripts (four challenges with pairwise distinct non-zero squares at every level, the same `L, R` for the
+    four children, scalars `a, b` with `P = a•g + b•h + ab•Q` at the leaves) over independent generators
+    yields vectors `a, b` with `P = ⟨a,g⟩ + ⟨b,h⟩ + ⟨a,b⟩•Q`. -/
+theorem ipp_special_sound [DecidableEq F] (Q : G) (k : ℕ) (g h : IppExtract.Idx k → G) (P : G)
+    (hi : IppExtract.Indep (F := F) g h Q) (ht : IppExtract.AccTree (F := F) Q k g h P) :
+    ∃ a b : IppExtract.Idx k → F, P = (∑ j, a j • g j) + (∑ j, b j • h j) + (∑ j, a j * b j) • Q :=
+  IppExtract.ipp_tree_extract Q k g h P hi ht
 
 /-! ## lengths (no size-hint assertion of the multiscalar multiplication can fire) -/
 
